@@ -87,11 +87,21 @@ macro_rules! twin {
                 let m = std::panic::catch_unwind(std::panic::AssertUnwindSafe(|| qr(content)));
                 (match svg { Ok(s) => fnv64(s.bytes()), Err(_) => 1 }, match m { Ok(v) => fnv64(v.iter().cloned()), Err(_) => 1 })
             }
+            /// a hand-made symbol (public fields, arbitrary module values): the renderers take any &QRCode
+            pub fn handmade(v: usize, kind: usize) -> QRCode {
+                let n = 17 + 4 * v;
+                let mut q = QRCode::default(n);
+                for y in 0..n { for x in 0..n {
+                    let dark = match kind { 0 => true, 1 => false, 2 => (x + y) % 2 == 0, 3 => y % 2 == 0, 4 => x == 0 || y == 0 || x == n - 1 || y == n - 1, 5 => y == n - 1 || x == n - 1, _ => (x * 7 + y * 13 + x * y) % 3 == 0 };
+                    q.data[y * n + x] = $krate::Module::data(dark);
+                } }
+                q
+            }
             pub fn text_hash(qr: &QRCode) -> u64 { match std::panic::catch_unwind(std::panic::AssertUnwindSafe(|| qr.to_str())) { Ok(s) => fnv64(s.bytes()), Err(_) => 1 } }
             pub fn raster_hash(qr: &QRCode, prog: &[Call]) -> u64 {
                 let mut b = ImageBuilder::default();
                 for c in prog { match c { Call::FitWidth(w) => { b.fit_width(*w); } Call::FitHeight(h) => { b.fit_height(*h); } other => apply(other, &mut b) } }
-                match std::panic::catch_unwind(std::panic::AssertUnwindSafe(|| { let p = b.to_pixmap(qr); (p.width(), fnv64(p.data().iter().cloned())) })) { Ok((w, h)) => h ^ ((w as u64) << 48), Err(_) => 1 }
+                match std::panic::catch_unwind(std::panic::AssertUnwindSafe(|| { let p = b.to_pixmap(qr); let png = b.to_bytes(qr).map(|v| fnv64(v.into_iter())).unwrap_or(7); (p.width(), fnv64(p.data().iter().cloned()) ^ png.rotate_left(17)) })) { Ok((w, h)) => h ^ ((w as u64) << 48), Err(_) => 1 }
             }
         }
     };
@@ -155,18 +165,20 @@ pub fn diffbuild(sink: &mut Sink, seed: u64, thorough: bool) {
     sink.emit(&json!({"ev": "FileSkip", "id": id, "tag": format!("diffbuild:summary:{}", n.min(1)), "fault": format!("{} sampled requests per thread x {} threads, {} differ from the reference build", per_thread, nthreads, n)}));
 }
 
-fn sample_prog(r: &mut rand::rngs::StdRng, n: f64, raster: bool) -> Vec<Call> {
+fn sample_prog(r: &mut rand::rngs::StdRng, n: f64, raster: bool, imgs: &[String]) -> Vec<Call> {
     let mut p: Vec<Call> = Vec::new();
     let col = |r: &mut rand::rngs::StdRng| -> Vec<u8> { let a = [255u8, 255, 255, 128, 0, 254, 16, 15][r.gen_range(0..8)]; vec![r.gen(), r.gen(), r.gen(), a] };
     for _ in 0..r.gen_range(0..6) {
         p.push(match r.gen_range(0..12) {
             0 => Call::Shape(r.gen_range(0..6)), 1 => Call::ShapeColor(r.gen_range(0..6), col(r)),
-            2 => Call::Margin([0usize, 1, 2, 3, 4, 5, 8, 16, 17, 100, 999, 1000, 1024, 1025][r.gen_range(0..if raster { 9 } else { 14 })]),
-            3 => Call::ModuleColor(if r.gen_range(0..3) == 0 { vec![r.gen(), r.gen(), r.gen()] } else { col(r) }), 4 => Call::BackgroundColor(col(r)),
-            5 => Call::Image(["logo.png", "a&b.png", "data:image/png;base64,AAAA", "caf\u{e9}.svg", "x\"y<z>.png"][r.gen_range(0..5)].to_string()),
+            2 => Call::Margin(if r.gen_range(0..2) == 0 { r.gen_range(0..if raster { 24 } else { 70 }) } else { [0usize, 1, 2, 3, 4, 5, 8, 16, 17, 100, 999, 1000, 1024, 1025][r.gen_range(0..if raster { 9 } else { 14 })] }),
+            3 => match r.gen_range(0..4) { 0 => Call::ModuleColor(vec![r.gen(), r.gen(), r.gen()]), 1 => Call::ModuleColorStr(["#123456", "#abcdef80", "red", "#FFF", "rgb(1,2,3)", "#0a0B0c"][r.gen_range(0..6)].to_string()), _ => Call::ModuleColor(col(r)) },
+            4 => if r.gen_range(0..4) == 0 { Call::BackgroundColorStr(["#ffffff", "#00000000", "transparent", "#FEDCBA"][r.gen_range(0..4)].to_string()) } else { Call::BackgroundColor(col(r)) },
+            5 => Call::Image(if r.gen_range(0..2) == 0 { ["logo.png", "a&b.png", "data:image/png;base64,AAAA", "caf\u{e9}.svg", "x\"y<z>.png"][r.gen_range(0..5)].to_string() } else { imgs[r.gen_range(0..imgs.len())].clone() }),
             6 => Call::ImageBackgroundColor(col(r)), 7 => Call::ImageBackgroundShape(r.gen_range(0..3)),
-            8 => Call::ImageSize((r.gen_range(1..(4.0 * 1.5 * n) as i64) as f64) / 4.0), 9 => Call::ImageGap((r.gen_range(0..24) as f64) / 4.0),
-            10 => Call::ImagePosition((r.gen_range(-8..(4.0 * (n + 8.0)) as i64) as f64) / 4.0, (r.gen_range(-8..(4.0 * (n + 8.0)) as i64) as f64) / 4.0),
+            8 => { let q = if r.gen_range(0..2) == 0 { 4.0 } else { 1000.0 }; Call::ImageSize((r.gen_range(1..(q * 1.5 * n) as i64) as f64) / q) }
+            9 => { let q = if r.gen_range(0..2) == 0 { 4.0 } else { 1000.0 }; Call::ImageGap((r.gen_range(0..(6.0 * q) as i64) as f64) / q) }
+            10 => { let q = if r.gen_range(0..2) == 0 { 4.0 } else { 1000.0 }; Call::ImagePosition((r.gen_range(-(2.0 * q) as i64..(q * (n + 8.0)) as i64) as f64) / q, (r.gen_range(-(2.0 * q) as i64..(q * (n + 8.0)) as i64) as f64) / q) }
             _ => if raster { if r.gen_range(0..2) == 0 { Call::FitWidth(r.gen_range(1..12u32) * (n as u32 + 8) + r.gen_range(0..3)) } else { Call::FitHeight(r.gen_range(1..9u32) * (n as u32 + 8)) } } else { Call::Margin(r.gen_range(0..12)) },
         });
     }
@@ -181,7 +193,8 @@ pub fn diffrender(sink: &mut Sink, seed: u64, thorough: bool) {
     let per_thread = if thorough { 60_000usize } else { 6_000 };
     let nthreads = 14usize;
     let (tx, rx) = std::sync::mpsc::channel::<(usize, bool, Vec<Call>)>();
-    let handles: Vec<_> = (0..nthreads).map(|t| { let (tx, specs) = (tx.clone(), specs.clone()); std::thread::spawn(move || {
+    let imgs: std::sync::Arc<Vec<String>> = std::sync::Arc::new({ let mut v = image_pool(); v.retain(|s| s.len() < 200); v.extend(image_structured(seed, true)); v });
+    let handles: Vec<_> = (0..nthreads).map(|t| { let (tx, specs, imgs) = (tx.clone(), specs.clone(), imgs.clone()); std::thread::spawn(move || {
         let mut r = rng(seed, 900 + t as u64);
         let qs: Vec<_> = specs.iter().map(|s| (test_side::build(s), ref_side::build(s))).collect();
         let mut found = 0usize;
@@ -189,7 +202,7 @@ pub fn diffrender(sink: &mut Sink, seed: u64, thorough: bool) {
             let k = if i % 5 == 0 { r.gen_range(0..qs.len()) } else { r.gen_range(0..6) };
             let (Some(qt), Some(qr)) = (&qs[k].0, &qs[k].1) else { continue };
             let raster = i % 4 == 0 && k < 6;
-            let p = sample_prog(&mut r, qt.size as f64, raster);
+            let p = sample_prog(&mut r, qt.size as f64, raster, &imgs);
             let differ = if raster { test_side::raster_hash(qt, &p) != ref_side::raster_hash(qr, &p) } else { test_side::svg_hash(qt, &p) != ref_side::svg_hash(qr, &p) };
             if differ { let _ = tx.send((k, raster, p)); found += 1; if found >= 10 { break; } }
         }
@@ -213,6 +226,16 @@ pub fn diffrender(sink: &mut Sink, seed: u64, thorough: bool) {
             if p.iter().any(|c| matches!(c, Call::Image(_))) { let id2 = sink.id(); ev["ev"] = json!("SvgFrame"); ev["id"] = json!(id2); if let Some(o) = ev.get_mut("obs").and_then(|o| o.as_object_mut()) { o.insert("layers".into(), json!([])); } if let Some(o) = ev.as_object_mut() { o.insert("vals".into(), json!([])); } sink.emit(&ev); }
         }
     }
+    // hand-made symbols through the three renderers
+    for v in [1usize, 2, 6, 13, 40] { for kind in 0..7usize {
+        let (a, b) = (test_side::handmade(v, kind), ref_side::handmade(v, kind));
+        if test_side::text_hash(&a) != ref_side::text_hash(&b) { let id = sink.id(); sink.emit(&text_event(id, &format!("difftext:handmade:{kind}"), &a)); }
+        for sh in [0usize, 1, 3] {
+            let p = vec![Call::Margin(kind % 3), Call::Shape(sh)];
+            if test_side::svg_hash(&a, &p) != ref_side::svg_hash(&b, &p) { let id = sink.id(); sink.emit(&svg_event(id, &format!("diffsvg:handmade:{kind}"), &a, &p)); }
+            if v <= 6 { let mut pr = p.clone(); pr.push(Call::FitWidth(4 * (a.size + 2 * (kind % 3)) as u32)); if test_side::raster_hash(&a, &pr) != ref_side::raster_hash(&b, &pr) { let id = sink.id(); sink.emit(&raster_event(id, &format!("diffraster:handmade:{kind}"), &a, &pr)); } }
+        }
+    } }
     let q1 = qr_of(1, seed);
     let id = sink.id();
     sink.emit(&svg_event(id, "diffsvg:sample", &q1, &[Call::Margin(2)]));
